@@ -115,6 +115,15 @@ class FnTracer(Tracer):
         self.env_pos = len(self.used)
 
 
+# progress-call indices before which the back-end object is replaced by pickle.loads(pickle.dumps(impl)) — what
+# autosave + resume does. The stepping history must not notice (the model has no such event: it is the identity).
+PICKLE_AT = [frozenset()]
+
+
+def set_pickle_at(ks):
+    PICKLE_AT[0] = frozenset(ks)
+
+
 def run_real_tape(n, times, tape, max_progress=100000, tracer=None):
     """Drive the real NoisyMPSBackendImpl with an environment tape [(norm, u, post_norm, choice)].
     Returns (status, records, tracer)."""
@@ -126,7 +135,11 @@ def run_real_tape(n, times, tape, max_progress=100000, tracer=None):
             impl = make_noisy_impl(n, times)
             impl.init()
             k = 0
+            import pickle
             while not impl.is_finished():
+                if k in PICKLE_AT[0]:
+                    impl = pickle.loads(pickle.dumps(impl))
+                    tr.pickled = getattr(tr, "pickled", 0) + 1
                 impl.progress()
                 k += 1
                 if k > max_progress:
@@ -449,7 +462,7 @@ def physics_run(seed, n, times, omega, gamma):
 
 # ------------------------------------------------------------------ check
 def _ser(n, times, tape):
-    return {"n": n, "times": times, "tape": [list(t) for t in tape], "cfg_dt": CFG_DT[0]}
+    return {"n": n, "times": times, "tape": [list(t) for t in tape], "cfg_dt": CFG_DT[0], "pickle_at": sorted(PICKLE_AT[0])}
 
 
 def tape_cases(rep, rng, count, drv_lines, pending, sizes=(2, 3)):
@@ -458,7 +471,10 @@ def tape_cases(rep, rng, count, drv_lines, pending, sizes=(2, 3)):
         times = gen_times(rng)
         mode, tape = gen_tape(rng, rng.randint(2, 40))
         set_cfg_dt(rng.choice(CFG_DTS))
+        if rng.random() < 0.3:      # pickle round trips at arbitrary progress() boundaries, incl. in the middle of a jump search
+            set_pickle_at(rng.sample(range(0, 30), rng.randint(1, 3)))
         one_tape(rep, n, times, tape, drv_lines, pending, mode)
+        set_pickle_at(())
     set_cfg_dt(10.0)
 
 
@@ -470,15 +486,19 @@ def gen_fn(rng):
     us = [rng.uniform(0.15, 0.9) for _ in range(rng.randint(1, 4))]
     # config.dt: mostly the grid step (how the back-end is really used), otherwise independent of it
     cfg_dt = dt if (dt in CFG_DTS and rng.random() < 0.6) else rng.choice(CFG_DTS)
-    return dict(fn=True, n=rng.choice([2, 3]), times=times, gamma=gamma, us=us, cfg_dt=cfg_dt)
+    pk = sorted(rng.sample(range(0, 40), rng.randint(1, 4))) if rng.random() < 0.4 else []
+    return dict(fn=True, n=rng.choice([2, 3]), times=times, gamma=gamma, us=us, cfg_dt=cfg_dt, pickle_at=pk)
 
 
 def one_fn_tape(rep, d, drv_lines, pending):
     """a tape that is a function of time (so that norm - threshold and norm^2 - threshold have different zeros)"""
     ft = FnTracer(d["gamma"], d["us"])
     set_cfg_dt(d.get("cfg_dt", 10.0))
+    set_pickle_at(d.get("pickle_at", ()))
     status, recs, tr = run_real_tape_observed(d["n"], d["times"], None, tracer=ft)
     set_cfg_dt(10.0)
+    set_pickle_at(())
+    rep.hist("pickle_round_trips", getattr(tr, "pickled", 0))
     tape = list(ft.used)
     msg = oracle(d["times"], recs if not status.startswith("err") else tr.recs, tr, status)
     if msg:
@@ -508,6 +528,7 @@ def one_tape(rep, n, times, tape, drv_lines, pending, mode):
     rep.hist("jumps_per_run", min(len(tr.jump_info), 10))
     rep.hist("sites", n)
     rep.hist("config_dt", CFG_DT[0])
+    rep.hist("pickle_round_trips", getattr(tr, "pickled", 0))
 
 
 def check(rep: Report, tier: str, seed: int) -> None:
@@ -524,6 +545,8 @@ def check(rep: Report, tier: str, seed: int) -> None:
         "environment contract: random.uniform draws in [0,1]; post-jump norm passes the code's own isclose assert",
         "binary64 rounding is outside the theorems (same definitions over an ordered field); the correspondence is bit-exact",
         "local kernels (_evolve etc.) abstracted to events: C18 is about the stepping logic only",
+        "pickle round trips (what autosave+resume does) are inserted at arbitrary progress() boundaries in ~30-40 % of the tape runs; the model "
+        "has no such event (identity), so the streams must still be equal; the file handling of autosave/resume itself is C26/C27's subject",
         "the property's '1 ns root tolerance' is a constant: the model's tolerance and the oracle's clauses use 1 ns whatever MPSConfig.dt is",
     ]
     compat.install()
@@ -650,6 +673,7 @@ def replay(rep: Report, path: str) -> int:
     for f in data.get("failing_inputs", []):
         d = f["data"]
         set_cfg_dt(d.get("cfg_dt", 10.0))
+        set_pickle_at(d.get("pickle_at", ()))
         if d.get("physics"):
             status, recs, tr, omsg = physics_run(d["seed"], d["n"], d["times"], omega=d.get("omega", 6.0), gamma=d["gamma"])
             msg = oracle(d["times"], recs, tr, status, tape_driven=False) or ((omsg, None) if omsg else None)
